@@ -69,14 +69,14 @@ def run(ctx):
         for t in ["Star", "Filter", "Dot", "Lbracket", "Lparen", "Not", "Lbrace"]:
             ctx.check(table[t] >= stop, "projection-stop", f"{t}>=STOP",
                       f"lbp({t})={table[t]} >= PROJECTION_STOP={stop}: {t} does not silently end a projection")
-    check_projection_rhs(ctx, lib, stop)
+    ctx.attempt("check_projection_rhs", check_projection_rhs, ctx, lib, stop)
 
     # (3) Pratt loop
-    check_pratt_loop(ctx, lib)
+    ctx.attempt("check_pratt_loop", check_pratt_loop, ctx, lib)
 
     # (4)+(5) operand powers and node vocabulary
-    check_operands(ctx, lib, table)
-    check_nodes(ctx, lib)
+    ctx.attempt("check_operands", check_operands, ctx, lib, table)
+    ctx.attempt("check_nodes", check_nodes, ctx, lib)
 
 
 # ---------------------------------------------------------------------------
@@ -374,9 +374,37 @@ def agg_field(term, name):
     return None
 
 
+TOP_LEVEL = {
+    "parse_index": {"Index", "Projection"}, "parse_flatten": {"Projection"}, "parse_filter": {"Projection"},
+    "parse_wildcard_index": {"Projection"}, "parse_wildcard_values": {"Projection"}, "parse_comparator": {"Comparison"},
+    "parse_multi_list": {"MultiList"},
+}
+
+
+def check_top_level(ctx, lib, rule="node-vocabulary"):
+    """The node kinds a routine can *return* (Slice, Flatten, ObjectValues and Condition only ever occur
+    wrapped in a Projection, which is what makes them projections)."""
+    from .. import rettags as RT
+    for fn, allowed in TOP_LEVEL.items():
+        b = ctx.fn(P + fn, rule=rule)
+        if b is None:
+            continue
+        o = Origins(b, lib)
+        oks, opaque = RT.ok_values(b)
+        got = set()
+        for blk, op in oks:
+            for t in o.of_operand(op):
+                if t[0] == "agg" and t[1].startswith(AST + "::"):
+                    got.add(t[1].split("::")[-1])
+                else:
+                    got.add("?" + fmt_terms([t])[:50])
+        ctx.check(got == allowed and not opaque, rule, f"{fn}:returns", f"{fn} returns exactly the node kinds {sorted(allowed)} (found {sorted(got)})", b.span)
+
+
 def check_nodes(ctx, lib):
     rule = "node-vocabulary"
     n = 0
+    check_top_level(ctx, lib, rule)
 
     def body_aggs(fn):
         b = ctx.fn(P + fn, rule=rule)
